@@ -1777,7 +1777,8 @@ func (w *pworld) truncFamily(id string) {
 // SCALE: flood family (C14). The node has signed a message that lacks quorum; one guardian then delivers `n` valid observations
 // for `n` distinct digests this node never observed (a guardian catching up after an outage, or a misbehaving one) - all inside
 // the five minutes such entries live. The node's own entry is by then the oldest in the map: it must still be retried when due and
-// must not be discarded. The flood is ONE line (`flood`); the driver judges what follows by the Spec clauses alone.
+// must not be discarded. The flood is ONE line (`flood`: digest i = le32(i) ++ sfx, all signatures, the state after the last one);
+// the driver expands it into the n observations and runs each through the model.
 func (w *pworld) floodFamily(id string, n int) {
 	r := w.r
 	set := w.randKeys(4)
@@ -1806,10 +1807,16 @@ func (w *pworld) floodFamily(id string, n int) {
 	}
 	sfx := make([]byte, 28)
 	r.Read(sfx)
-	ok := w.emit("flood", fmt.Sprintf("addr=%s n=%d sfx=%s", phex(set[1].addr.Bytes()), n, phex(sfx)), func() {
-		for i := 0; i < n; i++ {
-			h := append([]byte{byte(i), byte(i >> 8), byte(i >> 16), byte(i >> 24)}, sfx...)
-			w.p.handleObservation(w.ctx, w.obsFor(set[1], h))
+	obs := make([]*gossipv1.SignedObservation, n)
+	sigs := make([]string, n)
+	for i := range obs {
+		h := append([]byte{byte(i), byte(i >> 8), byte(i >> 16), byte(i >> 24)}, sfx...)
+		obs[i] = w.obsFor(set[1], h)
+		sigs[i] = hex.EncodeToString(obs[i].Signature)
+	}
+	ok := w.emit("flood", fmt.Sprintf("addr=%s n=%d sfx=%s sigs=%s", phex(set[1].addr.Bytes()), n, phex(sfx), strings.Join(sigs, ",")), func() {
+		for _, o := range obs {
+			w.p.handleObservation(w.ctx, o)
 		}
 	}, false)
 	if !ok {
